@@ -203,12 +203,15 @@ pub fn plan(prop: &str) -> Option<Plan> {
             p.o_convert = 0;
             p.o_stash = 1;
             p.o_fetch = 0;
+            p.o_push = 70;
+            p.o_alloc = 40;
+            p.w_mutate_root = 45;
             Plan {
                 prop: "C09",
                 profile: p,
-                opts: ExecOpts { c09: true, hook: true, ..Default::default() },
-                cases_quick: 48_000,
-                cases_thorough: 1_000_000,
+                opts: ExecOpts { c09: true, hook: true, max_live: 3000, ..Default::default() },
+                cases_quick: 32_000,
+                cases_thorough: 600_000,
                 rule: "random histories with allocation bursts of 0-300 objects between natural (never artificially reduced) debt-driven calls under all pacing presets; non-trivial = a tracked cycle that needed >= 3 calls, or a sleep allowance crossed from below",
                 nontrivial: |c| c.c09_multi_call_cycles > 0 || c.c09_sleep_crossed > 0,
                 crash_is_violation: false,
